@@ -68,6 +68,9 @@ type NodeInfo struct {
 	Boundary string
 	// for message roots (top level and embedded): the semantic values of the envelope fields written
 	Env map[string]string // Date, Subject, Message-Id, From, To  (addresses as mailbox@host)
+	// Ext: the values behind BODYSTRUCTURE's extension data as written for this node (header shape "ext"):
+	// filename (of Content-Disposition: attachment), language, location, md5
+	Ext map[string]string
 }
 
 // Built is a rendered message.
@@ -160,7 +163,7 @@ func (b *builder) node(a []int) *NodeInfo {
 	k := AddrKey(a)
 	n := b.nodes[k]
 	if n == nil {
-		n = &NodeInfo{Addr: append([]int{}, a...), Params: map[string]string{}, Env: map[string]string{}}
+		n = &NodeInfo{Addr: append([]int{}, a...), Params: map[string]string{}, Env: map[string]string{}, Ext: map[string]string{}}
 		b.nodes[k] = n
 	}
 	return n
@@ -300,6 +303,18 @@ func (b *builder) field(a []int, f string, nth int) string {
 			}
 			v = "multipart/" + n.Sub + "; " + p
 		}
+	case "Content-Disposition":
+		info.Ext["filename"] = "f" + strings.ReplaceAll(AddrKey(a), ".", "_") + ".bin"
+		v = "attachment; filename=\"" + info.Ext["filename"] + "\""
+	case "Content-Language":
+		v = "en-x" + strings.ReplaceAll(AddrKey(a), ".", "")
+		info.Ext["language"] = v
+	case "Content-Location":
+		v = "loc-" + strings.ReplaceAll(AddrKey(a), ".", "-")
+		info.Ext["location"] = v
+	case "Content-MD5":
+		v = "md5" + strings.ReplaceAll(AddrKey(a), ".", "") + "AAAAAAAAAAAAAAAA=="
+		info.Ext["md5"] = v
 	default:
 		v = "value"
 	}
